@@ -46,7 +46,11 @@ def r14_1_scalar_table(ctx, rid='R14.1'):
     r = ctx.rule(rid, 'one scalar table: get_value, set_value, set_attribute and is_scalar agree with scalar_type_to_tag',
                  floor=12)
     table = S.scalar_table(P)
-    want = {'str': table['str'], 'int': table['int'], 'float': table['float'], 'bool': table['bool'], 'None': table['None']}
+    missing = [k for k in ('str', 'int', 'float', 'bool', 'None') if k not in table]
+    r.check(not missing, 'scalar_type_to_tag has entries for str, int, float, bool and None', 'yatiml.util:scalar_type_to_tag:node-scalar-types',
+            'yatiml/util.py', 'scalar_type_to_tag has no entry for %s, which the Node helpers document as scalar types '
+            '(has_attribute_type(attr, None), is_scalar(None), set_value(None) look it up)' % missing)
+    want = {k: table.get(k, CORE + {'None': 'null'}.get(k, k)) for k in ('str', 'int', 'float', 'bool', 'None')}
     # get_value: arms by tag
     g = fn(P, NODE + 'get_value')
     arms = {}
